@@ -139,7 +139,7 @@ type boundArg struct {
 	pre  Term
 	typ  types.Type
 	// for pointer arguments: where the pointee lives in the caller
-	viaAddr bool // expr is the addressable pointee itself (implicit & on receiver or &x argument)
+	viaAddr  bool // expr is the addressable pointee itself (implicit & on receiver or &x argument)
 	embedded []int
 }
 
